@@ -527,8 +527,8 @@ class Frame:
                 if is_const(args[0]) and args[0][1] in (0, 1):
                     return ("c", 1 - args[0][1], None)
                 return ("un", "Not", args[0])
-            if name in ("eq", "ne", "lt", "le", "gt", "ge") and len(args) == 2 and f.startswith("core::cmp") and t.get("self_ty") in (
-                    "usize", "u64", "u32", "u8", "u16", "u128", "i32", "i64", "bool", "&usize", "&u64", "&u32", "&u8"):
+            if name in ("eq", "ne", "lt", "le", "gt", "ge") and len(args) == 2 and f.startswith("core::cmp"):
+                # PartialEq / PartialOrd method calls are comparisons whatever the operand type (Duration, slices, digests)
                 return fold_bin(name.capitalize(), args[0], args[1])
             if name == "zip" and len(args) == 2:
                 return ("zip", args[0], args[1])
@@ -692,7 +692,7 @@ class Frame:
             t = blk["t"]
             # stores through pointers / projections are not calls; record deref stores as effects
             for si, s in enumerate(blk["s"]):
-                if "d" in s and s["d"]["p"] and s["d"]["p"][0] == "*":
+                if "d" in s and s["d"]["p"] and "*" in s["d"]["p"]:
                     tgt = self.local_term(s["d"]["l"])
                     val = self.rvalue_term(s["r"])
                     emit(Effect(self.site(bb) + "#s%d" % si, "<store>", (), (tgt, val, self._proj_desc(s["d"]["p"])),
